@@ -123,6 +123,8 @@ class C11Sched(Scheduler):
         self.retries = 0
         self.linkloss = bool((cfg.get('case') or {}).get('linkloss'))
         self.resets_left = 0
+        self.reset_since_sub = False
+        self.unacked_rounds = 0
 
     def _round(self):
         w, rng = self.w, self.rng
@@ -163,6 +165,7 @@ class C11Sched(Scheduler):
                 for cid, c in w.net.conns.items():
                     if lead is not None and set((c.chost, c.shost)) == set((lead, h.idx)):
                         self.resets_left -= 1
+                        self.reset_since_sub = True
                         w.probe('reset_inside_chunked_entry')
                         return [0.0, 'rst', cid, rng.randrange(2)]
         if live:
@@ -174,6 +177,17 @@ class C11Sched(Scheduler):
         if self.waiting is not None:
             done = self._applied_everywhere(self.waiting)
             cb = w.oracle.cbs.get(self.waiting)
+            if done and not cb and self.reset_since_sub:
+                # the leader's reply to a forwarded command travelled on the connection that was reset: the forwarding
+                # node keeps waiting for it until the leader changes.  Every replica has executed the command - that is
+                # all C11 states; "at most once" for the callback is C02's - so after a grace of 50 rounds go on
+                self.unacked_rounds += 1
+                if self.unacked_rounds > 50:
+                    w.probe('reply_lost_with_reset_link')
+                    self.waiting = None
+                    self.rounds = 0
+                    self.unacked_rounds = 0
+                    return self.next_event()
             if done and cb:
                 self.waiting = None
                 self.rounds = 0
@@ -210,6 +224,8 @@ class C11Sched(Scheduler):
         self.waiting = tag
         self.rounds = 0
         self.resets_left = rng.choice([1, 1, 2, 3]) if self.linkloss else 0
+        self.reset_since_sub = False
+        self.unacked_rounds = 0
         return [0.0, 'sub', i, 'echo', tag, shape, size]
 
 
@@ -290,6 +306,35 @@ class C11Spec(Spec):
     def make_sched(self, world, rng, cfg):
         return C11Sched(world, rng, cfg)
 
+    def after_replay(self, w, orc):
+        # `not_applied_everywhere` is a verdict of the scheduler (it gives up after max_rounds benign rounds), which a
+        # replay does not run: re-derive it from the replayed history - the last submission, the benign rounds that
+        # followed it (each begins with the one tick that advances the clock by 10 ms) and the state reached
+        if orc.violations or w.net.live_pipes() or w.net.pending:
+            return      # (the scheduler gives its verdict only when nothing is in flight and no connect is pending)
+        last = None
+        for n, ev in enumerate(w.trace):
+            if ev[1] == 'sub':
+                last = n
+        if last is None:
+            return
+        tag = w.trace[last][4]
+        rounds = sum(1 for ev in w.trace[last + 1:] if ev[1] == 'tick' and ev[0] == 0.01)
+        max_rounds = w.cfg['sched'].get('c11_rounds', 600)
+        sch = C11Sched(w, _random.Random(0), w.cfg)
+        cb = orc.cbs.get(tag)
+        if sch._applied_everywhere(tag) and cb:
+            return
+        if cb and cb[0][1] != 0 and tag not in orc.Gtag:
+            return
+        if sch._applied_everywhere(tag) and any(ev[1] == 'rst' for ev in w.trace[last + 1:]):
+            return      # executed everywhere, the reply was lost with a reset link (see C11Sched.next_event)
+        if rounds >= max_rounds:
+            sh = orc.shapes.get(tag)
+            orc.flag('not_applied_everywhere',
+                     'command %d %r not applied on every replica (and acknowledged) after %d benign rounds' % (tag, sh, rounds + 1),
+                     dict(applied=[h.node.raftLastApplied for h in w.hosts if h.node], committed=tag in orc.Gtag))
+
     def nontrivial(self, res):
         c = res['cfg']
         B = c['conf']['appendEntriesBatchSizeBytes']
@@ -298,6 +343,9 @@ class C11Spec(Spec):
 
 
 _cursor = {'n': 1 << 30}
+# a verdict about the benign schedule as a whole (every round ticks every node, completes every connect, delivers
+# everything): a trace with events removed is another schedule, about which the verdict says nothing
+NO_MINIMISE_INVS = ('not_applied_everywhere',)
 WANTS_K = True
 
 
